@@ -19,25 +19,71 @@ func init() {
 
 // recursiveOverChildren: functions of the trie package reachable from entry that call themselves and range over a Node's children.
 func (c *Ctx) trieRoutine(pkg string, entry *ssa.Function) []*ssa.Function {
+	_, members := c.trieWalk(pkg, entry)
+	return sortedFuncs(members)
+}
+
+// trieWalk finds the recursive routine behind a trie entry point: the functions of the package, reachable from entry,
+// that lie on a call cycle (walk calling itself, or walk → descend → walk), and the head — the member entered from
+// outside the cycle. Rules about one step of the recursion run on the head's paths with the other members and the
+// package's helpers spliced in; a call back to a member is the recursive descent.
+func (c *Ctx) trieWalk(pkg string, entry *ssa.Function) (head *ssa.Function, members map[*ssa.Function]bool) {
+	members = map[*ssa.Function]bool{}
 	if entry == nil {
-		return nil
+		return nil, members
 	}
-	var out []*ssa.Function
+	inPkg := func(f *ssa.Function) bool { return f.Package() != nil && f.Package().Pkg.Path() == c.P.Rel(pkg) }
 	reach := c.P.Reach([]*ssa.Function{entry}, func(from *ssa.Function, cl *core.Call, to *ssa.Function) bool {
-		return to.Package() != nil && to.Package().Pkg.Path() == c.P.Rel(pkg) && (cl == nil || !cl.Invoke)
+		return inPkg(to) && (cl == nil || !cl.Invoke)
 	})
-	for _, f := range sortedFuncs(reach) {
-		rec := false
+	callees := func(f *ssa.Function) []*ssa.Function {
+		var out []*ssa.Function
 		for _, cl := range core.CallsIn(f) {
-			if cl.Static == f {
-				rec = true
+			if cl.Static != nil && inPkg(cl.Static) {
+				out = append(out, cl.Static)
 			}
 		}
-		if rec {
-			out = append(out, f)
+		for _, af := range f.AnonFuncs {
+			out = append(out, af)
+		}
+		return out
+	}
+	for f := range reach {
+		// can f reach itself?
+		seen := map[*ssa.Function]bool{}
+		var walk func(g *ssa.Function, d int) bool
+		walk = func(g *ssa.Function, d int) bool {
+			for _, h := range callees(g) {
+				if h == f {
+					return true
+				}
+				if !seen[h] && d > 0 {
+					seen[h] = true
+					if walk(h, d-1) {
+						return true
+					}
+				}
+			}
+			return false
+		}
+		if walk(f, 4) {
+			members[f] = true
 		}
 	}
-	return out
+	for _, f := range sortedFuncs(members) {
+		for _, site := range c.P.StaticCallers(f) {
+			if !members[site.Parent()] && !members[enclosingTop(site.Parent())] {
+				head = f
+			}
+		}
+	}
+	if head == nil {
+		for _, f := range sortedFuncs(members) {
+			head = f
+			break
+		}
+	}
+	return head, members
 }
 
 // ruleNonInterference implements C01-R3 / C07-R5.
@@ -47,8 +93,15 @@ func (c *Ctx) ruleNonInterference(id, pkg string, entry *ssa.Function, what stri
 	if !ru.Anchor(ok && entry != nil, pkg+".Node / entry point") {
 		return
 	}
-	fns := c.trieRoutine(pkg, entry)
-	ru.Anchor(len(fns) >= 1, "a recursive routine reachable from the entry point")
+	head, members := c.trieWalk(pkg, entry)
+	ru.Anchor(head != nil, "a recursive routine reachable from the entry point")
+	if head == nil {
+		return
+	}
+	// the routine and the package helpers that run as part of one step of it
+	fns := c.funcsDeepStop(head, 3, func(g *ssa.Function) bool {
+		return g.Package() == nil || g.Package().Pkg.Path() != c.P.Rel(pkg)
+	})
 	for _, f := range fns {
 		c.R.Fn(c.fname(f))
 		bad := ""
@@ -74,7 +127,7 @@ func (c *Ctx) ruleNonInterference(id, pkg string, entry *ssa.Function, what stri
 				for _, s := range []*ssa.BasicBlock{b.Succs[0], b.Succs[1]} {
 					if len(s.Preds) == 1 && s.Dominates(rb) {
 						for _, cl := range core.CallsIn(f) {
-							if cl.Instr.Block() == rb && cl.Static == f {
+							if cl.Instr.Block() == rb && cl.Static != nil && members[cl.Static] {
 								bad = "descent into children is gated by a node's payload (" + short(t, 80) + "): matching depends on what is stored, not only on filter and topic"
 							}
 						}
@@ -721,13 +774,13 @@ func checkC07(c *Ctx) {
 // ruleVisitOnce implements C01-R6: within one step of the trie walk no child node is acted upon twice.
 func (c *Ctx) ruleVisitOnce(id, pkg string, entry *ssa.Function) {
 	ru := c.R.Rule(id, "one walk step acts on each child at most once: two actions (emit its subscribers / descend into it) that can happen on the same path never target children that may be the same node — same range iteration, or map lookups whose keys are not provably different (a topic level is client-chosen and may equal a wildcard character)", "E1 paths of the recursive routine + E3 source of each child", 1)
-	fns := c.trieRoutine(pkg, entry)
-	if !ru.Anchor(len(fns) >= 1, "the recursive walk routine") {
+	head, members := c.trieWalk(pkg, entry)
+	if !ru.Anchor(head != nil, "the recursive walk routine") {
 		return
 	}
-	for _, f := range fns {
+	for _, f := range []*ssa.Function{head} {
 		c.R.Fn(c.fname(f))
-		paths, err := core.EnumPaths(f, core.PathOpts{})
+		paths, err := c.pathsInlinedPkg(f, core.PathOpts{}, nil)
 		if err != nil {
 			ru.Undecided("child visits in "+c.fname(f), c.where(f, f), err.Error())
 			continue
@@ -744,7 +797,7 @@ func (c *Ctx) ruleVisitOnce(id, pkg string, entry *ssa.Function) {
 			for _, pc := range p.Calls() {
 				var subject ssa.Value
 				switch {
-				case pc.Static == f && len(pc.Common.Args) > 0:
+				case pc.Static != nil && members[pc.Static] && len(pc.Common.Args) > 0:
 					subject = pc.Common.Args[0]
 				case pc.Static == nil && !pc.Invoke && pc.Builtin() == "" && len(pc.Common.Args) > 0:
 					subject = pc.Common.Args[0]
